@@ -239,16 +239,37 @@ def css_fold(t, wide):
     return ''.join(out)
 
 
+_URL_OPEN = re.compile(r'url\s*\(')
+
+
+def css_url_args(d):
+    """the arguments of the url( tokens of a decoded style text, left to right: an argument runs to
+    the closing parenthesis (or the end) and is skipped as a whole; url() holds no URI"""
+    f = css_fold(d, False)
+    out = []
+    i = 0
+    while i < len(f):
+        m = _URL_OPEN.match(f, i)
+        if not m:
+            i += 1
+            continue
+        j = d.find(')', m.end())
+        arg = d[m.end():] if j < 0 else d[m.end():j]
+        if not arg:
+            i += 1
+            continue
+        out.append(arg)
+        i = m.end() + len(arg)
+    return out
+
+
 def css_problems(style, schemes):
     """what a browser would find objectionable in the text of a style attribute"""
     d = css_decode(style)
     probs = []
     if re.search(r'expression\s*\(', css_fold(d, True)):
         probs.append('expression(')
-    f = css_fold(d, False)
-    for m in re.finditer(r'url\s*\(', f):
-        j = d.find(')', m.end())
-        arg = d[m.end():] if j < 0 else d[m.end():j]
+    for arg in css_url_args(d):
         arg = arg.strip().strip('"\'').strip()
         sch = browser_scheme(arg)
         if sch is not None and sch not in schemes:
@@ -689,7 +710,7 @@ def shard(arg):
 
 def run(ctx):
     nsh = 16
-    per = ctx.n(700, 25000)
+    per = ctx.n(1800, 25000)
     res = Result()
     for r in pmap('harness.props.c06', 'shard', [(ctx.seed, i, per) for i in range(nsh)]):
         res.merge(r)
